@@ -429,6 +429,27 @@ fn main() {
         t
     });
 
+    // E8b: the word-limit spellings with the decimal point at EVERY position (and an exponent): a numeral whose digits
+    // are accumulated in machine words overflows on the digits, wherever the point stands
+    run.par("E8b word-limit spellings, point at every position", lim.len(), |i| {
+        let mut t = Tally::default();
+        let d = &lim[i];
+        for pos in 0..=d.len() {
+            for (sign, exp) in [("", ""), ("-", ""), ("", "e3"), ("+", "E-7")] {
+                let f = format!("{}{}.{}{}", sign, &d[..pos], &d[pos..], exp);
+                t.states += 1;
+                t.nontrivial += 1;
+                for e in ENTRIES {
+                    t.transitions += 1;
+                    if let Some(v) = check(e, f.as_bytes(), 10) {
+                        run.report(v);
+                    }
+                }
+            }
+        }
+        t
+    });
+
     // E9: long inputs of every outcome class (valid, scale overflow, i128 overflow, second dot, underscores)
     // with a multi-byte character inserted at / substituted for every position: no byte offset computed from
     // the length may ever be used to slice the input
